@@ -490,6 +490,14 @@ def char_eq(a, b):
 
 
 # ---------------------------------------------------------------- SymStr
+def _is_lt(ch):
+    """titlecase LETTER (category Lt): what CPython's str.isupper / islower test per character (str.istitle() of a
+    one-character string is also true for plain uppercase letters)"""
+    import unicodedata
+
+    return unicodedata.category(ch) == "Lt"
+
+
 class SymStr:
     __slots__ = ("cs",)
 
@@ -654,14 +662,14 @@ class SymStr:
         if not self.cs:
             return False
         up = ranges_of(lambda ch: ch.isupper())
-        lowt = ranges_of(lambda ch: ch.islower() or ch.istitle())
+        lowt = ranges_of(lambda ch: ch.islower() or _is_lt(ch))
         return s_and(s_or(*[sb(zin(c, up)) for c in self.cs]), *[s_not(sb(zin(c, lowt))) for c in self.cs])
 
     def islower(self):
         if not self.cs:
             return False
         lo = ranges_of(lambda ch: ch.islower())
-        upt = ranges_of(lambda ch: ch.isupper() or ch.istitle())
+        upt = ranges_of(lambda ch: ch.isupper() or _is_lt(ch))
         return s_and(s_or(*[sb(zin(c, lo)) for c in self.cs]), *[s_not(sb(zin(c, upt))) for c in self.cs])
 
     def isidentifier(self):
